@@ -1,4 +1,4 @@
-from checks import mibcompile, oidindex
+from checks import mibcompile, oidindex, atomicwrite
 
 RULE_MC = ('scenario = terminal state of MibCompile.tla exported by TLC (request x lazily chosen answers of every '
            'component x options); non-trivial = at least one component answered with a failure / fresh / borrow; '
@@ -9,3 +9,6 @@ for _p in ('C07', 'C08', 'C09', 'C10', 'C19'):
 
 REGISTRY['C18'] = {'run': oidindex.run, 'replay': oidindex.replay, 'finish': {
     'rule': 'history = sequence of genIndex() calls exported from the terminal states of OidIndex.tla (every module summary over an OID universe with digit-sharing arcs); non-trivial = at least two OIDs involved; distinct by history', 'exhaustive': True}}
+
+REGISTRY['C13'] = {'run': atomicwrite.run, 'replay': atomicwrite.replay, 'finish': {
+    'rule': 'schedule = terminal behaviour of AtomicWrite.tla (writer kind x 1-2 writers x one fault per writer at any system call x fresh/existing destination x dry-run); non-trivial = a fault is injected or two writers interleave; distinct by (faults, call order, initial state)', 'exhaustive': False}}
